@@ -149,5 +149,17 @@ PROPS['C02'] = {
             'weightings, custom inner/norm/dist, ndim >= 3 boundary scaling',
     'technique': 'contract-based deductive verification: symbolic execution at a generic index with reduction records, closure arrays for the boundary scaling, z3',
 }
+PROPS['C11'] = {
+    'level': 'proof',
+    'text': 'Deductive, relational loop contracts with a SYMBOLIC iteration count (the loop is never unrolled): for admm_linearized / doubleprox_dc / adupdates the pre-loop code of the '
+            'optimised solver and of its _simple reference reach coupled loop heads, and from ANY coupled pair (generic state, junk in the reusable buffers, private invariant tmp_ran == L(x)) '
+            'one execution of each real loop body yields coupled states again and exactly one callback on the iterate object => identical iterate sequences for every niter. For landweber, kaczmarz '
+            '(fixed order), proximal_gradient, (os)mlem, steepest_descent (constant step) and pdhg (x_relax, y passed back, or defaulted) the body is proved equal to the textbook update F of the '
+            'exposed state only (independent of k, niter, buffer contents), pre/post-loop code leaves it alone => n then m == n+m. Abstract operators / functionals / proximals: every problem instance.',
+    'note': 'trusted: pyvc interpreter, contracts C01/C03-C10 of elements, Operator.__call__ (aliasing out=x), adjoint, derivative, proximal factories of abstract functionals; induction over the '
+            'iteration number / iterate lemma as meta-lemmas; exact reals (rounding not decided). Lists of operators: m in {1,2} (bounded-in: m). Thorough tier adds a bounded native monitor '
+            '(real solvers, library functionals incl. KL / indicators / Huber) that is never counted as proved. Not claimed: accelerated pdhg, callable lam(k), accelerated_proximal_gradient',
+    'technique': 'contract-based deductive verification: relational loop invariants (initiation + consecution from a havocked generic state) over symbolic execution of the real loop bodies, z3',
+}
 for _k in PROPS:
     NOT_APPLICABLE.pop(_k, None)
